@@ -1,0 +1,27 @@
+//go:build verif
+
+package literal
+
+// Contracts for the deductive verifier in /verif (govc). Comment-only file.
+
+// C10: a Go integer offered as a value is stored exactly (nodeInt is the mathematical value of the
+// resulting node) or rejected -- never silently altered.  Only the fast path (the type switch) is
+// verified; the reflection-based slow path is abstracted (anyAssemble is trusted to return some assembler).
+//@ func Any
+//@   ensures [C10] int: v is int && err == nil ==> nodeInt(res) == v.(int)
+//@   ensures [C10] int8: v is int8 && err == nil ==> nodeInt(res) == v.(int8)
+//@   ensures [C10] int16: v is int16 && err == nil ==> nodeInt(res) == v.(int16)
+//@   ensures [C10] int32: v is int32 && err == nil ==> nodeInt(res) == v.(int32)
+//@   ensures [C10] int64: v is int64 && err == nil ==> nodeInt(res) == v.(int64)
+//@   ensures [C10] uint: v is uint && err == nil ==> nodeInt(res) == v.(uint)
+//@   ensures [C10] uint8: v is uint8 && err == nil ==> nodeInt(res) == v.(uint8)
+//@   ensures [C10] uint16: v is uint16 && err == nil ==> nodeInt(res) == v.(uint16)
+//@   ensures [C10] uint32: v is uint32 && err == nil ==> nodeInt(res) == v.(uint32)
+//@   ensures [C10] uint64: v is uint64 && err == nil ==> nodeInt(res) == v.(uint64)
+//@   ensures [C10] safe53: (v is int || v is int64 || v is uint || v is uint64) && err == nil ==> -9007199254740991 <= nodeInt(res) && nodeInt(res) <= 9007199254740991
+//@   ensures [C10] node: v is datamodel.Node && err == nil ==> res == v
+//@
+//@ func anyAssemble
+//@   trusted
+//@   ensures result != nil
+
